@@ -229,6 +229,7 @@ fn scenario_on(agg: Agg, input: Vec<KV>, assign: Vec<usize>, layout: Layout, ts:
         nontrivial: input.len() >= 2,
         unbounded: false,
         loop_body: false,
+        sometimes: vec![],
     }
 }
 
